@@ -1,6 +1,8 @@
-HOOK_COMMITS = []
+HOOK_COMMITS = ["e2d838b verif hook (cfg scrut_verif): virtual clock for the stateful executor"]
 NOTES = "Model checking = bounded exhaustive exploration of the real code against reference models; see DESIGN.md. Exit 0 held / 1 violation / >=2 machinery failure."
 ENGINES = [
+    {"name": "vc_timeout", "path": "harness/src/engines/vc_timeout.rs", "serves_properties": ["C14"],
+     "kind_free_text": "virtual-clock exploration of the real executor with a fake Runner vs timeline model; real-time replays through the binary"},
     {"name": "vc_verdict", "path": "harness/src/engines/vc_verdict.rs", "serves_properties": ["C05"],
      "kind_free_text": "exhaustive verdict table + exhaustive short documents through the scrut binary"},
     {"name": "vc_state", "path": "harness/src/engines/vc_state.rs", "serves_properties": ["C12"],
@@ -108,5 +110,10 @@ CHECKS.append(
      "technique": "exhaustive enumeration of the verdict table (exit status x expected code x stream x acceptance) through the real validate, and of all short documents over command behaviours (incl. death by signal) through the real binary",
      "text": "All 2240 rows of the verdict table are evaluated by the real TestCase::validate (pass iff Code(c), c = expected or 0, and the selected stream accepted; wrong code reported as such whatever the output; no status without exit code ever passes); every document of 1..2 (quick) / 1..3 (thorough) test cases over 9 command behaviours is run in Markdown and Cram through `scrut test -r json` and the per-test kinds and the process exit status are compared with the reference.",
      "note": "/bin/bash of this image; acceptance of streams itself is C01-C03"})
+CHECKS.append(
+    {"id": "C14", "engine": "vc_timeout", "category": "model_checking", "design_ref": "DESIGN.md §2 C14",
+     "technique": "exhaustive exploration of the executor's timeline under a virtual clock (hook) with a fake Runner against a reference timeline model, plus real-time conformance replays of model traces through the scrut binary",
+     "text": "Every document of 1..3 test cases over duration x per-test timeout x wait x document limit is run through the real StatefulExecutor::execute_all under a virtual clock; which limit fires, at which test, with how many outputs and at what virtual time must equal the reference timeline, and execution never extends beyond the document limit. The model's traces are replayed in real time through `scrut test` (kinds timeout/skipped, exit status 50, wall time within [limit, limit+1.5 s], no timeout for fast commands, timed-out shell terminated).",
+     "note": "virtual clock hook H1 (cfg scrut_verif) in stateful_executor.rs; real time only by replays (L1); surviving grandchildren of a timed out shell recorded as known finding"})
 claimed = {c["id"] for c in CHECKS}
 NOT_APPLICABLE = [{"property_id": p, "reason": "check not built yet (work in progress; planned in DESIGN.md)"} for p in ALL if p not in claimed]
